@@ -677,6 +677,44 @@ func (w *world) judge(x *common.Exec, acts [][]*actRec, quietNs int64, atQuiesce
 	x.StateHash = hh.Sum64()
 	dump := func() string { return w.dump(acts) }
 
+	// ---- faults that actually fired (evidence)
+	for _, se := range sess {
+		if k := se.EndKind(); k != "" {
+			x.Fault("stream-ended:" + k)
+		}
+		for i := 0; i < int(se.nSent.Load()) && i < len(se.msgs); i++ {
+			switch se.msgs[i].K {
+			case "errresp", "nilresp":
+				x.Fault("peer-message:" + se.msgs[i].K)
+			}
+			if se.msgs[i].DelayNs > 0 {
+				x.Fault("message-delayed")
+			}
+		}
+	}
+	for _, ds := range w.dials {
+		for _, d := range ds {
+			if d.kind != "ok" {
+				x.Fault("dial:" + d.kind)
+			}
+		}
+	}
+	for _, a := range all {
+		switch a.act.K {
+		case "remove", "reconnect", "add":
+			if a.returned && a.err == "" {
+				x.Fault("manager-call:" + a.act.K)
+			}
+		default:
+			x.Fault("manager-call-refusable:" + a.act.K)
+		}
+	}
+	for _, c := range cbs {
+		if c.kind == "monitorerror" || c.kind == "connecterror" {
+			x.Fault("callback:" + c.kind)
+		}
+	}
+
 	// ---- refused calls: duplicate Add, unknown Remove / Reconnect.
 	nameOf := func(a *actRec) string { return sc.Targets[a.act.T%len(sc.Targets)].Name }
 	isAdd := func(a *actRec) bool { return (a.act.K == "add" || a.act.K == "add-dup") && a.err == "" && a.returned }
@@ -889,6 +927,22 @@ func (w *world) judge(x *common.Exec, acts [][]*actRec, quietNs int64, atQuiesce
 				for _, c := range cbs {
 					if c.name == t.Name && c.kind == "monitorerror" && c.stamp > lastErr {
 						lastErr = c.stamp
+					}
+				}
+				// Receive timeout: with a positive timeout in force for this
+				// target (its own receive_timeout, else the manager's), nothing
+				// being able to happen any more means no watchdog is pending:
+				// the target must not be sitting in a stream that fell silent.
+				eff := sc.RecvToNs
+				if t.RecvToNs > 0 && !t.BadRecvTo {
+					eff = t.RecvToNs
+				}
+				if eff > 0 {
+					for _, se := range sess {
+						if se.Target() == t.Name && se.open.Load() && se.gotReq.Load() && int(se.nSent.Load()) == len(se.msgs) {
+							x.Violate("C13/silent-stream-never-timed-out", "target %s is managed with a receive timeout of %v, its stream (server %d session %d) has been silent since it sent %v, and nothing can happen any more (virtual time %v): the silence was never treated as a failed session\n%s", t.Name, time.Duration(eff), se.server, se.seq, se.Sent(), time.Duration(quietNs), dump())
+							return
+						}
 					}
 				}
 				inProgress := lastAttempt > lastErr
